@@ -129,6 +129,7 @@ class Ctx:
         self.tlc_runs = []
         self.n_tlc = 0
         self.notes = []
+        self.concurrency_crashes = []    # Go runtime "concurrent map ..." reports from harness runs
         self._kf = None
 
     # ------------------------------------------------------------------ utils
@@ -202,6 +203,17 @@ class Ctx:
                                stdout=subprocess.PIPE, stderr=subprocess.PIPE, text=True, timeout=timeout)
         except subprocess.TimeoutExpired:
             raise MachineryError("harness timed out: %s" % " ".join(map(str, args)))
+        if p.returncode != 0 and "fatal error: concurrent map" in p.stderr and e.get("VERIF_WORKERS") != "1":
+            # The harness drives independent runners from several goroutines; the Go runtime has killed it
+            # because the LIBRARY shares a map between them (that is property C18's subject, which reports
+            # it).  For this property the same work is redone by a single worker, so that its own verdict
+            # is still reached.
+            i = p.stderr.index("fatal error: concurrent map")
+            self.concurrency_crashes.append(p.stderr[i:i + 1500])
+            self.notes.append("the harness was killed by the Go runtime (%s) while driving independent runners in parallel; "
+                              "`%s` was repeated with one worker" % (p.stderr[i:i + 60].splitlines()[0], " ".join(map(str, args[:2]))))
+            return self.harness(args, race=race, timeout=timeout * 8, stdin=stdin, check=check,
+                                env=dict(env or {}, VERIF_WORKERS="1"), cwd=cwd)
         if check and p.returncode != 0:
             raise MachineryError("harness %s failed rc=%d\nstdout: %s\nstderr: %s" % (
                 " ".join(map(str, args)), p.returncode, p.stdout[-3000:], p.stderr[-3000:]))
@@ -386,6 +398,9 @@ def write_ndjson(path, items):
 
 def main(argv, registry):
     import argparse
+    import signal
+    # a terminated check still removes its scratch directory (and its children: subprocess.run kills them on the way out)
+    signal.signal(signal.SIGTERM, lambda *_: sys.exit(143))
     ap = argparse.ArgumentParser()
     ap.add_argument("prop")
     ap.add_argument("--tier", default=os.environ.get("VERIF_TIER", "quick"), choices=["quick", "thorough"])
